@@ -29,6 +29,12 @@ def loopbackOn : Bool := true
 /-! source facts the model relies on — the shape of the Go functions as the model mirrors
    them; each is tied to the regenerated `Gen/Authn.lean` by `Ties/C36.lean` -/
 def cacheKeyExpr : String := "user + \":\" + pw"
+/-- every `a.tokenMap[...]` access of `cachedTokenAuthnCheck` (the read before and the write after
+    the unlocked store lookup) uses the SAME local string `key`, a value computed once from the
+    request — not something that lives in the `API` object and can change while `tokenMu` is
+    released; and `API` has no byte-slice / buffer field that could serve as such scratch space -/
+def tokenMapKeyUses : List String := ["key", "key"]
+def apiScratchFields : List String := []
 def staleCond : String := "!ok || time.Now().After(res.lastLookup.Add(tokenExpiry))"
 def cachedCheckChain : List String :=
   ["if !ok || time.Now().After(res.lastLookup.Add(tokenExpiry)) => -", "return nil"]
